@@ -13,7 +13,7 @@ func init() {
 		c.deferred = true
 		badRaw := []string{"Z:0.0.0.00", "Z:1.4.0.82", "Z:2.0.1.0000", "Z:2.0.0.0000000000", "Z:3.0.1.00", "Z:3.0.0.00000008", "Z:4.0.1.-", "Z:4.1.0.000000000000", "Z:4.0.0.0102",
 			"Z:6.0.0.0102", "Z:6.0.1.0000000000000000", "Z:7.0.0.00", "Z:7.0.1.0000000000000000", "Z:8.0.0.00000000", "Z:8.0.1.00000000", "Z:8.0.1.000000", "Z:9.4.1.82", "Z:9.0.0.82",
-			"Z:0.8.1.-", "Z:1.8.1.-", "Z:1.36.1.01020304", "Z:0.8.1.0501", "Z:1.12.1.0582", "Z:5.4.1.0000000282", "Z:4.0.0.000480000000"}
+			"Z:8.0.0.80000000", "Z:8.0.1.80000000", "Z:8.0.0.80000001", "Z:0.8.1.-", "Z:1.8.1.-", "Z:1.36.1.01020304", "Z:0.8.1.0501", "Z:1.12.1.0582", "Z:5.4.1.0000000282", "Z:4.0.0.000480000000"}
 		for i := 0; i < c.count; i++ {
 			r := c.rng.fork()
 			maxStreams := []int{100, 100, 3, 1}[r.intn(4)]
@@ -54,9 +54,16 @@ func init() {
 					}
 					next += 2
 				case 5: // malformed / ill-shaped request on a new stream
-					toks = append(toks, fmt.Sprintf("H:%d.%d.-.%s.r", next, r.intn(2), []string{"F", "B", "T", "P"}[r.intn(4)]))
+					toks = append(toks, fmt.Sprintf("H:%d.%d.-.%s.r", next, r.intn(2), []string{"F", "B", "T", "P", "V"}[r.intn(5)]))
 					gone = append(gone, next)
 					next += 2
+					if r.chance(1, 2) {
+						// the next header block opens with a dynamic table size update: only a decoder that finished the
+						// rejected block takes it
+						toks = append(toks, fmt.Sprintf("M:%d", []int{2048, 4096, 0, 100}[r.intn(4)]), fmt.Sprintf("H:%d.1.-.q-.r", next))
+						gone = append(gone, next)
+						next += 2
+					}
 				case 6: // illegal stream ids for HEADERS: even, reused, going down, self-dependent priority
 					switch r.intn(4) {
 					case 0:
